@@ -14,29 +14,29 @@ the `_src` theorem, is then re-proved by Lean on that run — or stops checking.
 -/
 namespace CircBuf
 
-theorem C07_get_src (s : Sys) (i : Nat) (h : Inv s.buf) :
+maybe theorem C07_get_src (s : Sys) (i : Nat) (h : Inv s.buf) :
     Gen.get i s = (.ok (if i < s.buf.size then some (phys s.buf.start s.buf.cap i) else none), s) := by
   first
   | (rw [tie_get _ s h (nd_get _ s h)]; exact C07_get s i h)
 
-theorem C07_front_src (s : Sys) (h : Inv s.buf) :
+maybe theorem C07_front_src (s : Sys) (h : Inv s.buf) :
     Gen.front s = (.ok (if 0 < s.buf.size then some s.buf.start else none), s) := by
   first
   | (rw [tie_front s h (nd_front s h)]; exact C07_front s h)
 
-theorem C07_back_src (s : Sys) (h : Inv s.buf) :
+maybe theorem C07_back_src (s : Sys) (h : Inv s.buf) :
     Gen.back s = (.ok (if 0 < s.buf.size then some (phys s.buf.start s.buf.cap (s.buf.size - 1))
       else none), s) := by
   first
   | (rw [tie_back s h (nd_back s h)]; exact C07_back s h)
 
-theorem C07_nth_back_src (s : Sys) (i : Nat) (h : Inv s.buf) :
+maybe theorem C07_nth_back_src (s : Sys) (i : Nat) (h : Inv s.buf) :
     Gen.nth_back i s = (.ok (if i < s.buf.size then some (phys s.buf.start s.buf.cap (s.buf.size - 1 - i))
       else none), s) := by
   first
   | (rw [tie_nth_back _ s h (nd_nthBack _ s h)]; exact C07_nth_back s i h)
 
-theorem C07_make_contiguous_src (s : Sys) (h : Inv s.buf) :
+maybe theorem C07_make_contiguous_src (s : Sys) (h : Inv s.buf) :
     ∃ b' v, Gen.make_contiguous s = (.ok v, { s with buf := b' }) ∧ Inv b' ∧ abs b' = abs s.buf ∧
       b'.cap = s.buf.cap ∧ b'.size = s.buf.size ∧
       v.slots = windowSlots b'.start b'.cap b'.size ∧
